@@ -23,6 +23,13 @@ CHECKS = {
             'side effect, order labels, by_label and aggregate properties are compared after every operation.',
             'Python list semantics are the model; tuples/empty index lists/slice assignment not generated; set_order only with long-enough orders',
             'DESIGN.md 3/C18'),
+    'C09': ('exploration',
+            'model-based stateful testing of quantiser call histories against a reference model (refresh counter + cached statistics), exact per-sample prediction',
+            'Generated quantiser configurations and call histories (inputs from eight distributions incl. constant/huge/tiny, '
+            'custom deviations, cache resets, all refresh periods) are predicted sample-for-sample by a reference model; '
+            'range, integrality, monotonicity, absence of NaN/RuntimeWarning and independence of re/im are checked on every call.',
+            'numpy mean/std are the estimator; pre-round values within 1e-9 of a tie are excluded and counted; squares must not overflow',
+            'DESIGN.md 3/C09'),
 }
 
 ALL = [f'C{i:02d}' for i in range(1, 21)]
